@@ -112,11 +112,19 @@ Fixpoint send_stored_l (mps : N) (l : list pkt) : list pkt * list pkt :=   (* (k
               if mps <? k_size p then (k, p :: d) else (p :: k, d)
   end.
 
+(* GenericStorePacket -> GenericPacket (`packet.clone().into()`): the store type has only the
+   PUBLISH and PUBREL variants, so the conversion can only yield one of these two kinds *)
+Definition store_into (p : pkt) : pkt :=
+  if k_type p =? T_PUBLISH then p else
+  mkPkt T_PUBREL (k_ver p) (k_pid p) (k_qos p) (k_dup p) (k_retain p) (k_topic p) (k_alias p) (k_plen p)
+        (k_paylen p) (k_size p) (k_rc_present p) (k_rc p) (k_flag p) (k_keep_alive p)
+        (k_tam p) (k_rm p) (k_mps p) (k_sei p) (k_ska p).
+
 (* events are pushed in store order: a release for a dropped entry, a send for a kept one *)
 Fixpoint send_stored_events (mps : N) (l : list pkt) : evs :=
   match l with
   | [] => []
-  | p :: t => (if mps <? k_size p then EReleased (k_pid p) else ESend p None) :: send_stored_events mps t
+  | p :: t => (if mps <? k_size p then EReleased (k_pid p) else ESend (store_into p) None) :: send_stored_events mps t
   end.
 
 Fixpoint release_all (a : alloc) (ids : list N) : res alloc :=
@@ -462,9 +470,18 @@ Definition do_send (g : cfg) (c : conn) (p : pkt) : R :=
   else Ok (c, not_allowed).
 
 (* ---- error handlers ---- *)
+(* close_with_v5_0_disconnect: a library-generated DISCONNECT that does not fit the peer's
+   Maximum Packet Size is replaced by closing without it *)
+Definition close_with_disconnect (c : conn) (p : pkt) : R :=
+  if status_eqb (c_status c) Connected && negb (size_ok c p) then
+    let c := set_status c Disconnected in
+    let '(c, e) := cancel_timers c in
+    Ok (c, e ++ [EClose])
+  else send_disconnect c p.
+
 Definition handle_v311_error (e : N) : evs := [EClose; EError e].
 Definition handle_v5_error (c : conn) (e : N) : R :=
-  bindr (send_disconnect c (disconnect_v5 (disc_rc_of_err e))) (fun '(c, ev) => Ok (c, ev ++ [EError e])).
+  bindr (close_with_disconnect c (disconnect_v5 (disc_rc_of_err e))) (fun '(c, ev) => Ok (c, ev ++ [EError e])).
 Definition handle_error (c : conn) (v : version) (e : N) : R :=
   if version_eqb v V50 then handle_v5_error c e else Ok (c, handle_v311_error e).
 
@@ -514,6 +531,41 @@ Definition resume_or_clear (c : conn) (session_present : bool) : R :=
       else Ok (c, es))
   else Ok (clear_store_related c, []).
 
+(* CONNACK received: Server Keep Alive drives the client's PINGREQ timer *)
+Definition connack_recv_ska (c : conn) (p : pkt) : conn * evs :=
+  match k_ska p with
+  | Some s =>
+    let val := s * 1000 in
+    let c := set_server_ka_ms c (Some val) in
+    match c_user_ping c with
+    | Some _ => (c, [])
+    | None =>
+      if val =? 0 then
+        (if c_t_send c then (set_t_send c false, [ETimerCancel TPingreqSend]) else (c, []))
+      else (set_t_send c true, [ETimerReset TPingreqSend val])
+    end
+  | None => (c, [])
+  end.
+
+(* CONNACK received: Session Expiry Interval decides whether the session is kept *)
+Definition connack_recv_sei (c : conn) (p : pkt) : conn :=
+  match k_sei p with
+  | Some m => if m =? 0 then clear_store_related (set_need_store c false) else set_need_store c true
+  | None => c
+  end.
+
+(* CONNACK received: the limits the server announced *)
+Definition connack_recv_limits (c : conn) (p : pkt) : res conn :=
+  bindr (match k_tam p with
+         | Some m => if 0 <? m then bindr (tas_new m) (fun s => Ok (set_ta_send c (Some s))) else Ok c
+         | None => Ok c end) (fun c =>
+  bindr (match k_rm p with
+         | Some m => if m =? 0 then Panic P_SIZE_ASSERT else Ok (set_send_max c (Some m))
+         | None => Ok c end) (fun c =>
+  match k_mps p with
+  | Some m => if m =? 0 then Panic P_SIZE_ASSERT else Ok (set_mps_send c m)
+  | None => Ok c end)).
+
 Definition recv_connack (c : conn) (v : version) (pr : presult) : R :=
   if status_eqb (c_status c) Connected then handle_error c v E_PROTOCOL else
   match pr with
@@ -522,33 +574,10 @@ Definition recv_connack (c : conn) (v : version) (pr : presult) : R :=
       let c := set_status c Connected in
       if version_eqb v V50 then
         (* properties in order of appearance; the view keeps one value per kind (parser enforces that) *)
-        bindr (match k_tam p with
-               | Some m => if 0 <? m then bindr (tas_new m) (fun s => Ok (set_ta_send c (Some s))) else Ok c
-               | None => Ok c end) (fun c =>
-        bindr (match k_rm p with
-               | Some m => if m =? 0 then Panic P_SIZE_ASSERT else Ok (set_send_max c (Some m))
-               | None => Ok c end) (fun c =>
-        bindr (match k_mps p with
-               | Some m => if m =? 0 then Panic P_SIZE_ASSERT else Ok (set_mps_send c m)
-               | None => Ok c end) (fun c =>
-        let '(c, e1) :=
-          match k_ska p with
-          | Some s =>
-            let val := s * 1000 in
-            let c := set_server_ka_ms c (Some val) in
-            match c_user_ping c with
-            | Some _ => (c, [])
-            | None =>
-              if val =? 0 then
-                (if c_t_send c then (set_t_send c false, [ETimerCancel TPingreqSend]) else (c, []))
-              else (set_t_send c true, [ETimerReset TPingreqSend val])
-            end
-          | None => (c, [])
-          end in
-        let c := match k_sei p with
-                 | Some m => if m =? 0 then clear_store_related (set_need_store c false) else set_need_store c true
-                 | None => c end in
-        bindr (resume_or_clear c (k_flag p)) (fun '(c, e2) => Ok (c, e1 ++ e2 ++ [ENotify p])))))
+        bindr (connack_recv_limits c p) (fun c =>
+        let '(c, e1) := connack_recv_ska c p in
+        let c := connack_recv_sei c p in
+        bindr (resume_or_clear c (k_flag p)) (fun '(c, e2) => Ok (c, e1 ++ e2 ++ [ENotify p])))
       else
         bindr (resume_or_clear c (k_flag p)) (fun '(c, e2) => Ok (c, e2 ++ [ENotify p]))
     else Ok (c, [ENotify p])
@@ -729,7 +758,7 @@ Definition process_recv_packet (g : cfg) (c : conn) (fh : N) (body : list N) (pr
   let total := remaining_length_to_total_size (N.of_nat (length body)) in
   if c_mps_recv c <? total then
     if status_eqb (c_status c) Connected then
-      bindr (send_disconnect c (disconnect_v5 149)) (fun '(c, e) => Ok (c, e ++ [EError E_PACKET_TOO_LARGE]))
+      bindr (close_with_disconnect c (disconnect_v5 149)) (fun '(c, e) => Ok (c, e ++ [EError E_PACKET_TOO_LARGE]))
     else
       let c := set_status c Disconnected in
       let '(c, e) := cancel_timers c in
@@ -777,7 +806,7 @@ Definition do_timer (c : conn) (k : timer) : R :=
     let c := match k with TPingreqRecv => set_t_recv c false | _ => set_t_resp c false end in
     match c_version c with
     | V311 => Ok (c, [EClose])
-    | V50 => if status_eqb (c_status c) Connected then send_disconnect c (disconnect_v5 141) else Ok (c, [])
+    | V50 => if status_eqb (c_status c) Connected then close_with_disconnect c (disconnect_v5 141) else Ok (c, [])
     | VUndet => Panic P_UNDETERMINED
     end
   end.
